@@ -172,9 +172,18 @@ class PoolRun:
         self.fake = types.SimpleNamespace(Queue=FQ, Process=FP, cpu_count=lambda: 4,
                                           current_process=lambda: types.SimpleNamespace(name=me()))
         if func is None:
+            attempts = {}
+
             def func(i):
+                # a raising id fails for good: with an ordinary error, or with a network error on every attempt (odd ids);
+                # some other ids fail transiently (1-3 network errors, within net_retry = 3) and must still come back as successes
+                k = attempts[i] = attempts.get(i, 0) + 1
                 if i in run.raises:
+                    if i % 2:
+                        raise BrokenPipeError("task %d: network failure on every attempt" % i)
                     raise ValueError("task %d failed" % i)
+                if i % 5 == 3 and k <= i % 3 + 1:
+                    raise ConnectionResetError("task %d: transient network failure, attempt %d" % (i, k))
                 return i * 10
         self.func = func
 
